@@ -567,6 +567,59 @@ def ev_masshist(case):
 EVALUATORS["masshist"] = ev_masshist
 
 
+# ----------------------------------------------------------------------------- steep log-densities (added)
+def ev_steep(case):
+    """Narrow log-densities (standard deviation 1e-4 .. 1e-8, gradients of 1e4 .. 1e16) with a matching inverse mass: the
+    unbounded trajectory map is still reversible and its energy error still shrinks fourfold when the step is halved."""
+    from inference.mcmc import HamiltonianChain
+
+    d, sdv, T = case["d"], case["sd"], case["T"]
+    A = np.array([1.0, 2.5, 0.4])[:d] / sdv ** 2
+    mu = np.array([0.2, -0.1, 0.3])[:d]
+
+    def post(t):
+        z = np.asarray(t, dtype=float) - mu
+        return -0.5 * float((A * z * z).sum())
+
+    def grad(t):
+        return -A * (np.asarray(t, dtype=float) - mu)
+
+    fails, tags, slack = [], set(), {}
+    n = 0
+    with lib("HamiltonianChain"):
+        ch = HamiltonianChain(posterior=post, grad=grad, start=mu + 0.3 * sdv, temperature=T, inverse_mass=np.full(d, sdv ** 2) if d > 1 else float(sdv ** 2), display_progress=True)
+    for t0s, r0s in ((np.array([0.7, -1.1, 0.4])[:d], np.array([1.0, 0.6, -0.8])[:d]), (np.array([-1.5, 0.2, 2.0])[:d], np.array([-0.3, 1.4, 0.5])[:d])):
+        t0 = mu + t0s * sdv
+        r0 = r0s / sdv  # momenta have scale 1/sd under inverse mass sd^2
+
+        def H(t, r):
+            return 0.5 * float((r * r).sum()) * sdv ** 2 - post(t) / T
+
+        errs = []
+        for eps, nst in ((0.2, 6), (0.1, 12), (0.05, 24)):
+            ch.ES.epsilon = eps * math.sqrt(T)
+            a, b = leap(ch, t0, r0, nst)
+            n += 1
+            errs.append(abs(H(a, b) - H(t0, r0)))
+            ab, bb = leap(ch, a, -b, nst)
+            n += 1
+            rev = max(np.abs(ab - t0).max() / sdv, np.abs(bb + r0).max() * sdv)
+            slack["steep-reversibility"] = max(slack.get("steep-reversibility", 0.0), rev / 1e-8)
+            if rev > 1e-8:
+                fails.append(fail("steep/reversibility", f"sd={sdv:g} d={d} T={T}: forward, flip, forward misses the start by {rev:.3g} (in units of the width)", config=case))
+        # second order means a factor 16 over two halvings; the error of ONE end point oscillates with the phase, so only a
+        # factor 6 is demanded here (the fourfold ratio proper is asserted on rms errors by the trajectory evaluator)
+        if errs[0] > 1e-9 and not errs[2] <= errs[0] / 6.0:
+            fails.append(fail("steep/energy-error-does-not-shrink-with-the-step", f"sd={sdv:g} d={d} T={T}: energy errors {errs} at steps 0.2, 0.1, 0.05", config=case))
+        if errs[0] > 0.5:
+            fails.append(fail("steep/energy-error-large", f"sd={sdv:g} d={d} T={T}: energy error {errs[0]:.3g} at step 0.2 of the period scale", config=case))
+    tags.add(f"steep:sd={sdv:g}:d={d}:T={T}")
+    return {"fails": fails[:4], "n": n, "tags": tags, "slack": slack}
+
+
+EVALUATORS["steep"] = ev_steep
+
+
 def run(ck):
     seed, quick = ck.seed, ck.quick
     # ---- trajectories
@@ -592,6 +645,7 @@ def run(ck):
     # simplest first (the first counterexample recorded is then the smallest)
     cases.sort(key=lambda c: (c["d"], c["n"], R.MASSES.index(c["mass"]), R.BOUNDS.index(c["bounds"])))
     ck.run_cases("traj", cases, chunk=1)
+    ck.run_cases("steep", [dict(d=d, sd=sd, T=T) for d in (1, 2, 3) for sd in (1e-4, 1e-6, 1e-8) for T in (1.0, 2.5)])
     ck.run_cases("masshist", [dict(d=d, T=T, diagonal=dg, bounded=b, steps=st, seed=3 + ck.seed) for d in (1, 2, 3) for T in (1.0, 2.5) for dg in (True, False)
                               for b in (False, True) for st in ((12,) if ck.quick else (6, 12, 40)) if not (d == 1 and not dg)], chunk=2)
     # ---- acceptance rule
